@@ -31,8 +31,9 @@ try:
 except Exception as exc:  # the tie is broken: keep the committed layout, search for a failing input
     extract_err = '%s: %s' % (type(exc).__name__, exc)
 chk.lean(['VermouthProps.C16', 'VermouthProps.C16Tables', 'VermouthProps.C16File', 'VermouthProps.C16Gro',
-          'VermouthProps.C16Conect', 'VermouthProps.C16Format'],
+          'VermouthProps.C16Conect', 'VermouthProps.C16Format', 'VermouthProps.C16Total'],
          'driver_c16', generated=gen)
+chk.extra['phase_s'] = {'lean_done': round(chk.elapsed(), 1)}
 if extract_err:
     chk.broken.append(('extract:C16Layout', extract_err))
 chk.trusted.append('harness/c16_extract.py (AST translator of format strings / column tables, cross-checked against '
@@ -270,7 +271,7 @@ def canon_pdb(mols):
                           int(round(n['temp_factor'] * 100)), n['element']])
         out.append(atoms)
         bonds.extend(sorted({(mi, min(rank[u], rank[v]), max(rank[u], rank[v])) for u, v in m.edges}))
-    return 'ok ' + enc(out) + ' ' + enc([list(b) for b in bonds])
+    return 'ok ' + enc(out) + ' ' + enc([list(b) for b in bonds]), 'ok ' + enc(out)
 
 
 def canon_gro(mol):
@@ -508,7 +509,7 @@ def run_pdb(cid, case):
     mols, exc = None, None
     try:
         mols = read_pdb(path, exclude=(), ignh=False)
-        impl_r = canon_pdb(mols)
+        impl_r, impl_m = canon_pdb(mols)
     except Exception as e:
         exc = e
         impl_r = exc_name(e)
@@ -540,6 +541,10 @@ def run_pdb(cid, case):
                         False))
         return
     records.append((cid + '-pdbread', rline, impl_r, errs if use or finding else [], nontriv, finding, use))
+    # the closed form of the totality theorems (pdb_file_overflow_local: truncAtomOf) against what read_pdb returned
+    if kind not in ('big', 'huge'):     # (nothing overflows there; saves re-sending the large systems)
+        tline = line('pdbtrunc', enc_system(case))
+        records.append((cid + '-pdbtrunc', tline, impl_m if exc is None else impl_r, [], nontriv, None, True))
 
 
 def run_gro(cid, case0, precision=None):
@@ -588,6 +593,8 @@ def run_gro(cid, case0, precision=None):
     records.append((cid + '-growrite', wline, impl_w, [], nontriv, None, True))
     rline = line('groread', [], False, flines)
     records.append((cid + '-groread', rline, impl_r, errs if use or finding else [], nontriv, finding, use))
+    if precision is None and kind not in ('big', 'huge'):
+        records.append((cid + '-grotrunc', line('grotrunc', enc_system(case)), impl_r, [], nontriv, None, True))
 
 
 def run_history(cid, case):
@@ -676,6 +683,7 @@ for i in range(400 if chk.thorough else 60):
 import multiprocessing
 nproc = max(1, min(4 if chk.thorough else 8, (os.cpu_count() or 1)))
 order = sorted(range(len(cases)), key=lambda i: -sum(len(m['atoms']) for m in cases[i][1]['mols']))
+chk.extra['phase_s']['cases_generated'] = round(chk.elapsed(), 1)
 all_records, all_beyond = [], set()
 ctx = multiprocessing.get_context('fork')
 is_hist = [c[1]['kind'] == 'history' for c in cases]
@@ -693,6 +701,7 @@ for recs, cts, bey, err in results:
         chk.broken.append(err)
 records, beyond = all_records, all_beyond
 
+chk.extra['phase_s']['workers_done'] = round(chk.elapsed(), 1)
 # ----------------------------------------------------------------------------
 # TruncFormatter.format_field in general: random format specs x values (strings, integers, decimals on the grid
 # of the precision, which cross as integers) against C16.formatField; oracle in terms of python's format()
@@ -714,10 +723,18 @@ for cid, spec, val, prec in c16_fmt.stream(chk.rng('fmtfield'), 40000 if chk.tho
                     True))
 
 lines = [r[1] for r in records]
+chk.extra['phase_s']['real_code_done'] = round(chk.elapsed(), 1)
+open('/tmp/c16_lines.txt','w').write('\n'.join(lines)) if os.environ.get('C16_DUMP') else None
 models = chk.drv.ask(lines) if chk.lean_ok else [None] * len(lines)
+chk.extra['phase_s']['driver_done'] = round(chk.elapsed(), 1)
 for (cid, ln, impl, errs, nontriv, finding, use), mo in zip(records, models):
     if cid in beyond and mo == 'err unmodelled':
         mo = None     # reader behaviour outside the model (merging molecules): oracle-only case
+    if cid.endswith('trunc') and mo == 'skip':
+        mo = None     # an atom the reader drops or stops at by design (element not found, altloc, '#'): no closed form
+        chk.count('trunc_closed_form_not_applicable')
+    elif cid.endswith('trunc'):
+        chk.count('trunc_closed_form_compared')
     if cid.startswith('fmt-') and mo == 'err unmodelled':
         mo = None     # python formatting outside the model (',' grouping, types b c o x n e g %, '_', 'z')
         chk.count('fmt_model_unmodelled')
